@@ -30,6 +30,7 @@ func rLockHDF5(fn string) {
 	// masterMU.Lock()
 	// defer masterMU.Unlock()
 	mu.RLock()
+	verifLockEvent("rlock")
 	// mutex,ok := mus[fn]
 	// if !ok {
 	// 	newMutex := &sync.RWMutex{}
@@ -43,6 +44,7 @@ func rUnlockHDF5(fn string) {
 	// masterMU.Lock()
 	// defer masterMU.Unlock()
 
+	verifLockEvent("runlock")
 	mu.RUnlock()
 	// mus[fn].RUnlock()
 }
@@ -52,6 +54,7 @@ func lockHDF5(fn string) {
 	// defer masterMU.Unlock()
 
 	mu.Lock()
+	verifLockEvent("lock")
 	// mutex,ok := mus[fn]
 	// if !ok {
 	// 	newMutex := &sync.RWMutex{}
@@ -65,6 +68,7 @@ func unlockHDF5(fn string) {
 	// masterMU.Lock()
 	// defer masterMU.Unlock()
 
+	verifLockEvent("unlock")
 	mu.Unlock()
 	// mus[fn].Unlock()
 }
